@@ -30,6 +30,7 @@ META["explanation"] += " R11.9 every positional access to the sorted buffer (get
 META["explanation"] += ' R11.10 a searched position that is then advanced over a run of items (take_while(pred).count()) walks only over items not greater than the new value (polarity of Ordering::is_* against the argument order of the comparison). Shared: R10.12.'
 META["explanation"] += ' R11.4c looks through order-preserving iterator adapters and plain copies of the incoming vector (sorted first, numbered afterwards is a violation). R11.12 a working collection handed to the translator is empty between diffs: no arm drains it without clearing first while another arm leaves items in it.'
 META["explanation"] += ' R11.2 also compares the value operand of the buffer mutation with the value of the emitted diff (clones of one source).'
+META["explanation"] += ' R11.5 the sorted buffer is not started empty next to returned initial values that depend on the given vector unless the vector is known to be empty.'
 
 STRUCT = {"append", "clear", "push_front", "push_back", "pop_front", "pop_back", "insert", "set", "remove", "truncate", "retain", "split_off", "slice", "extend"}
 TRANSLATOR = "vector::sort::handle_diff_and_update_buffered_vector"
@@ -671,6 +672,21 @@ def bulk_tags(ctx, f, sw, arms, buf):
                     # both derive from the same collect(enumerate(..)) call site
                     srcs = [x[4] for x in find_all(buf_expr, lambda y: y[0] == "call" and ecall_matches(y, r"Iterator>?::collect$"))]
                     same = any(contains(vals, lambda y, l=l: y[0] == "call" and y[4] == l) for l in srcs)
+                    if not same:
+                        # a buffer that does not depend on the given values at all (`Vector::new()`) next to returned values that do:
+                        # right only where the given vector is known to be empty
+                        be = strip(buf_expr, through_calls=False)
+                        fresh = be[0] == "call" and ecall_matches(be, r"GenericVector::<.*>::new$|Default>?::default$|::new$") and not contains(buf_expr, lambda y: y[0] == "param")
+                        dep = contains(vals, lambda y: y[0] == "param")
+                        if fresh and dep:
+                            facts = conds.bare(conds.dominating_facts(gb, loc[0]))
+                            known_empty = any(fc[0] == "truth" and fc[2] is True and fc[1][0] == "call" and ecall_matches(fc[1], r"::is_empty$") and contains(fc[1], lambda y: y[0] == "param") for fc in facts) or \
+                                conds.cmp_holds(conds.dominating_facts(gb, loc[0]), "Eq", lambda e_: contains(e_, lambda y: y[0] == "call" and ecall_matches(y, r"::len$")), lambda e_: is_const_int(e_, 0))
+                            if not known_empty:
+                                ctx.violated("R11.5", g, "initial-values=buffer-order", gb.line_at(loc),
+                                             "`%s` hands out the given values but starts its sorted buffer empty on a path where the given vector need not be empty (e.g. exactly one initial item): every later diff is translated against a buffer that lacks those items - "
+                                             "positions are off, and a Set / Remove addressing one of them does not find its tag" % g.path)
+                                continue
                     ctx.verdict(True if same else None, "R11.5", g, "initial-values=buffer-order", gb.line_at(loc), "the returned initial values are read from the sorted buffer the adapter keeps")
 
 
